@@ -24,5 +24,31 @@ CHECKS.update({
    text=_EXPL + 'Histories over forward evaluations (varying point, D, P, kind), several reverse sweeps per forward, driver calls, a second graph recorded/evaluated in between, repetitions. Expected value of each call computed from its arguments alone (fresh graph recorded at another point).',
    note='History length <= 12; whole-history quantifier not decidable by per-call contracts (DESIGN 13). The per-call ingredients (pullbacks do not write forward values) are proved/checked under C14.'),
 })
+CHECKS.update({
+ 'C02': dict(level='proof', engine='tpvc', design_ref='DESIGN.md 3, 9 (C02), A.1',
+   technique='contract-based deductive verification of the ring kernels (all aliasing configurations) + bounded operator matrix against independent polynomial arithmetic',
+   text='_mul, _amul, _truediv, _itruediv, _square, _reciprocal are verified against the ring operations of R[t]/(t^D) for all D and every aliasing configuration used by a call site (out is y, x is y, out is x, out=None). The operator methods on top (operand-kind dispatch, broadcasting, dtype promotion, reflected and in-place forms, powers) are a bounded stand-in: every operand kind x order x broadcast shape pair x real/complex mix against bounded/polyarith.py.',
+   note='Exact means exact over the reals (A6). Operator-method layer bounded: D<=4, P<=3, rank<=3.'),
+ 'C10': dict(level='exploration', engine='bounded', design_ref='DESIGN.md 9 (C10)',
+   technique='run-time contracts against NumPy/SciPy as executable specification over the public op table; comparison operators enumerated',
+   text='For every public op x argument shapes x (D,P): zeroth coefficient per direction equals the NumPy/SciPy result on the zeroth coefficients, shape/len/size/ndim agree, plain-array calls return exactly the NumPy result; comparisons equal numpy.all(cmp(x0,y0)).',
+   note='Table look-up against an executable specification; bounded in shapes (rank<=3) and D,P.'),
+ 'C11': dict(level='exploration', engine='bounded', design_ref='DESIGN.md 3.1, 7.3, 9 (C11)',
+   technique='run-time contract: P-direction result vs each direction evaluated alone (ops and corpus programs, forward and reverse), distinct base points per direction',
+   text='Every op of the table and every corpus program (forward value and reverse-sweep adjoint) evaluated on P directions with different zeroth coefficients equals the single-direction evaluations. Direction-parametricity of the kernels is additionally enforced by the tpvc engine (a non-trivial batch subscript makes the kernel leave the verified subset).',
+   note='P<=3, D<=6; up to rounding of vectorised kernels (tolerance 1e-10).'),
+ 'C12': dict(level='proof', engine='tpvc', design_ref='DESIGN.md 9 (C12)',
+   technique='contract-based deductive verification: kernel postconditions are stated with spec functions T(x,d) that do not depend on D, proved for symbolic D; bounded D\'<D runs for ops and programs',
+   text='Each discharged kernel postcondition forall d<D. y[d] = T(x,d) (T defined by a recursion that reads x[0..d] only) is a proof of degree independence for that kernel. Whole operations, programs and the reverse sweep are checked for all D\'<D<=6 as a bounded stand-in.',
+   note='Same trusted base as C01; program-level part bounded.'),
+ 'C13': dict(level='exploration', engine='bounded', design_ref='DESIGN.md 9 (C13)',
+   technique='run-time contracts against NumPy applied slice-wise; numpy.shares_memory agreement and write-through for views; item assignment enumeration',
+   text='Indexing (all basic index forms), transpose, reshape, sum over any axis, tile, diag, triu/tril, trace, neg, conjugate, real/imag, fft/ifft, zeros/ones(-like): out.data[d,p] == NumPy op on x.data[d,p]; views share memory exactly as in NumPy and writes through them reach the parent; x[idx] = UTPM/ndarray/scalar equals the NumPy assignment per slice with constants clearing higher coefficients.',
+   note='rank<=3, D<=6, P<=3.'),
+ 'C14': dict(level='proof', engine='tpvc', design_ref='DESIGN.md 3.3, 7.2, 9 (C14)',
+   technique='contract-based deductive verification: exact frame (modifies) clauses and aliasing configurations of the kernels; bounded byte-wise frames for public ops and the tracer',
+   text='For every kernel under contract the frame obligation (every array parameter not aliased to out is unchanged) is discharged for all D, and each aliasing configuration found at a call site (out is y, x is y, out is x) is verified separately. Public operations, x op x, x op= x, x op= view(x), recording and reverse sweeps are byte-compared before/after as a bounded stand-in.',
+   note='Same trusted base as C01.'),
+})
 NOT_APPLICABLE = {p: 'check under construction in this session (see DESIGN.md build order); not yet claimed' for p in
-                  ['C02', 'C07', 'C08', 'C09', 'C10', 'C11', 'C12', 'C13', 'C14', 'C15', 'C16', 'C17']}
+                  ['C07', 'C08', 'C09', 'C15', 'C16', 'C17']}
